@@ -269,7 +269,7 @@ pub struct TlsSide {
     pub ssl_req_len: usize,
     pub client_hello_len: usize,
     pub handshake_done: bool,
-    closed: bool,
+    pub closed: bool,
 }
 
 impl TlsSide {
@@ -403,6 +403,26 @@ pub fn read_tls(w: &mut World, op: u64, ridx: u64, buf: &mut [u8]) -> io::Result
     let d = t.out_delivered;
     let mut n = buf.len().min(avail).min(w.sched_size_pub(ridx));
     n = n.min(w.cut_limit_pub(d as u64));
+    // end of stream after k bytes of the outer (wire) stream
+    let mut eof_at = None;
+    for f in &w.faults {
+        if let crate::plan::FaultAt::ClientByte(k) = f.at {
+            eof_at = Some(k as usize);
+        }
+    }
+    if let Some(k) = eof_at {
+        if d >= k {
+            if w.fault_fired.is_none() {
+                w.fault_fired = Some(op);
+                w.ev_pub(Ev::Fault { op });
+            }
+            w.fault_on_performed = true;
+            w.eof_injected = true;
+            w.ev_pub(Ev::ReadEof { op });
+            return Ok(0);
+        }
+        n = n.min(k - d);
+    }
     let t = w.tls.as_mut().unwrap();
     buf[..n].copy_from_slice(&t.out[d..d + n]);
     t.out_delivered += n;
